@@ -34,6 +34,7 @@ static Plan gen_fileset(const std::string &prop, const std::string &tier, uint64
 	p.seti("interval", iv0);
 	p.seti("ffilter", r.chance(1, 4) ? 1 + r.below(2) : 0);
 	p.seti("rfilter", r.chance(1, 5) ? 1 + r.below(2) : 0);
+	p.seti("mfunc", r.chance(2, 3) ? 0 : 1 + r.below(3));	// merge function of the first handle: union / min / lcp / max
 	auto newver = [&]() {
 		std::vector<std::string> a{ std::to_string(r.below(2)) };
 		for (int i = 0; i < nfiles; i++) {
@@ -84,7 +85,7 @@ static Plan gen_fileset(const std::string &prop, const std::string &tier, uint64
 			for (int k = 0; k < MAXH; k++) if (!halive[k]) { nh = k; break; }
 			if (nh < 0) continue;
 			uint32_t iv = ivals[r.below(6)];
-			p.op("dup", { std::to_string(h), std::to_string(nh), std::to_string(r.chance(1, 3) ? 1 + r.below(2) : 0), std::to_string(r.chance(1, 4) ? 1 + r.below(2) : 0), std::to_string(iv) });
+			p.op("dup", { std::to_string(h), std::to_string(nh), std::to_string(r.chance(1, 3) ? 1 + r.below(2) : 0), std::to_string(r.chance(1, 4) ? 1 + r.below(2) : 0), std::to_string(iv), std::to_string(r.chance(1, 2) ? 0 : 1 + r.below(3)) });
 			halive[nh] = true; hint[nh] = iv;
 		} else {
 			int alive = 0;
@@ -107,6 +108,7 @@ struct Handle {
 	mtbl_fileset *fs = nullptr;
 	uint32_t interval = 60;
 	int ffilter = 0, rfilter = 0;
+	int mfunc = 0;		// each handle folds with its own merge function
 	bool alive = false;
 };
 struct Cand { int64_t R; bool none; bool pending; bool operator<(const Cand &o) const { return std::tie(none, R, pending) < std::tie(o.none, o.R, o.pending); } };
@@ -177,7 +179,7 @@ struct World {
 			if (!vers[ver].exists[fi] || !passes(h, fi)) continue;
 			for (auto &kv : files[fi].ents) {
 				auto f = m.find(kv.first);
-				if (f == m.end()) m[kv.first] = kv.second; else f->second = union_values(f->second, kv.second);
+				if (f == m.end()) m[kv.first] = kv.second; else f->second = fold_values(h.mfunc, f->second, kv.second);
 			}
 		}
 		return m;
@@ -258,9 +260,9 @@ static RunResult exec_fileset(const Plan &p)
 		}
 		return k;
 	};
-	auto make_opts = [&](int ff, int rf, uint32_t iv) {
+	auto make_opts = [&](int ff, int rf, uint32_t iv, int mf) {
 		mtbl_fileset_options *fo = mtbl_fileset_options_init();
-		mtbl_fileset_options_set_merge_func(fo, merge_union_cb, nullptr);
+		mtbl_fileset_options_set_merge_func(fo, merge_union_cb, stateless_merge_ctx(mf));
 		mtbl_fileset_options_set_reload_interval(fo, iv);
 		if (ff) mtbl_fileset_options_set_filename_filter_func(fo, ffilter_cb, (void *)(intptr_t)ff);
 		if (rf) mtbl_fileset_options_set_reader_filter_func(fo, rfilter_cb, (void *)(intptr_t)rf);
@@ -333,7 +335,8 @@ static RunResult exec_fileset(const Plan &p)
 			if (!inited) {
 				w.hs[0].interval = (uint32_t)p.geti("interval", 60);
 				w.hs[0].ffilter = (int)p.geti("ffilter", 0); w.hs[0].rfilter = (int)p.geti("rfilter", 0);
-				fo0 = make_opts(w.hs[0].ffilter, w.hs[0].rfilter, w.hs[0].interval);
+				w.hs[0].mfunc = (int)(p.geti("mfunc", 0) % 4);
+				fo0 = make_opts(w.hs[0].ffilter, w.hs[0].rfilter, w.hs[0].interval, w.hs[0].mfunc);
 				w.hs[0].fs = mtbl_fileset_init(w.setpath.c_str(), fo0);
 				mtbl_fileset_options_destroy(&fo0);
 				w.hs[0].alive = true;
@@ -357,7 +360,9 @@ static RunResult exec_fileset(const Plan &p)
 			Handle &dst = w.hs[o.argi(1) % MAXH];
 			if (!src.alive || dst.alive) continue;
 			dst.ffilter = (int)(o.argi(2) % 3); dst.rfilter = (int)(o.argi(3) % 3); dst.interval = (uint32_t)o.argi(4);
-			mtbl_fileset_options *fo = make_opts(dst.ffilter, dst.rfilter, dst.interval);
+			dst.mfunc = (int)(o.argi(5) % 4);
+			if (dst.mfunc != src.mfunc) res.probes["dup-with-other-merge-function"]++;
+			mtbl_fileset_options *fo = make_opts(dst.ffilter, dst.rfilter, dst.interval, dst.mfunc);
 			dst.fs = mtbl_fileset_dup(src.fs, fo);
 			mtbl_fileset_options_destroy(&fo);
 			dst.alive = true;
